@@ -83,6 +83,36 @@ package proxy
 //@   loop 1 invariant [probed_from_zero] rnext(old(r.robin)) >= len(pool) ==> forall(k, 0, int(i), !pool[k].Available())
 //@   loop 1 decreases poolLen - i
 
+//@ unit hash_policies props=C05 filter=`proxy\.(IPHash|URIHash|Header)\)\.Select$`
+//@ // "hash-based policies send the same key to the same backend": what is hashed is the client address without its port,
+//@ // the request URI as received, or the values of the configured header names looked up the way net/http stores them
+//@ // (one canonicalising Header.Get per configured name: `policy header x-session-id` keys on X-Session-Id); the result is
+//@ // whatever hostByHashing (unit policies) returns for that key, round robin only when no such header is present.
+//@ use caskethttp/proxy/contracts_verif.go:policies
+//@ ghost lookups int
+//@ spec ipOf(addr string) string
+//@ spec hasPortPart(addr string) bool
+//@ extern net.SplitHostPort
+//@   ensures (result2 == nil) == hasPortPart(hostport)
+//@   ensures result2 == nil ==> result0 == ipOf(hostport)
+//@ extern (net/http.Header).Get
+//@   modifies ghost:lookups
+//@   ensures lookups == old(lookups) + 1
+//@ func (*IPHash).Select
+//@   requires request != nil && 1 <= len(pool) && len(pool) < 2147483648 && forall(k, 0, len(pool), pool[k] != nil)
+//@   at call hostByHashing assert [keyed_by_client_address_without_port] (hasPortPart(request.RemoteAddr) ==> arg1 == ipOf(request.RemoteAddr)) && (!hasPortPart(request.RemoteAddr) ==> arg1 == request.RemoteAddr)
+//@   ensures [answer_of_the_hash_probe] result == nil || (exists(k, 0, len(pool), pool[k] == result) && result.Available())
+//@ func (*URIHash).Select
+//@   requires request != nil && 1 <= len(pool) && len(pool) < 2147483648 && forall(k, 0, len(pool), pool[k] != nil)
+//@   at call hostByHashing assert [keyed_by_request_uri] arg1 == request.RequestURI
+//@   ensures [answer_of_the_hash_probe] result == nil || (exists(k, 0, len(pool), pool[k] == result) && result.Available())
+//@ func (*Header).Select
+//@   requires r != nil && request != nil && request.Header != nil && 1 <= len(pool) && len(pool) < 2147483648 && forall(k, 0, len(pool), pool[k] != nil) && lookups == 0
+//@   modifies ghost:lookups, RoundRobin.robin
+//@   at call hostByHashing assert [one_canonical_lookup_per_configured_name] lookups == len(r.Names)
+//@   at call (*RoundRobin).Select assert [fallback_only_after_looking_up_every_name] lookups == len(r.Names)
+//@   loop 1 invariant 0 <= #i && #i <= len(r.Names) && lookups == #i
+
 //@ unit joining_slash frames=on props=C04 filter=`proxy\.singleJoiningSlash$`
 //@ extern strings.HasSuffix
 //@   pure
